@@ -1,6 +1,7 @@
 package main
 
 import (
+	"math"
 	"math/rand"
 	"reflect"
 
@@ -15,9 +16,15 @@ func init() {
 func runC15(c map[string]interface{}) []Event {
 	e := Event{"ev": "similar", "gh": false, "hg": false, "agh": false, "ahg": false}
 	e["out"] = safely(func() {
-		g := decGeom(c["g"], intDec)
-		h := decGeom(c["h"], intDec)
-		tol := float64(num(c["tol"]))
+		// "sh": coordinates and tolerance times 2^sh (exact)
+		sh := 0
+		if v, ok := c["sh"]; ok {
+			sh = num(v)
+		}
+		dec := func(v interface{}) float64 { return math.Ldexp(float64(num(v)), sh) }
+		g := decGeom(c["g"], dec)
+		h := decGeom(c["h"], dec)
+		tol := math.Ldexp(float64(num(c["tol"])), sh)
 		e["gh"] = g.Similar(h, tol)
 		e["hg"] = h.Similar(g, tol)
 		e["agh"], e["ahg"] = e["gh"], e["hg"]
